@@ -507,6 +507,33 @@ def model_host_with_lib(nm: bytes):
     return _VHOST_CACHE[nm]
 
 
+def build_line(spec):
+    """op `build`: the structured hello of a built case for the Lean builder (BHello.message / fragsOf / records), and the wire the
+    harness's own builder produces for the same layout (one DTLS fragment per record: the Lean flight has no other form)"""
+    one = dict(spec, frags_per_record=1)
+    body = build_body(one)
+    dtls = bool(one["dtls"])
+    def ext_tok(e):
+        if e["t"] == "sni": return "s:" + ",".join(f"{nt}/{h if h not in ('', '-') else '-'}" for nt, h in e["names"])
+        if e["t"] == "alpn": return "a:" + ",".join(h if h not in ("", "-") else "-" for h in e["protos"])
+        return f"o:{e['typ']}/{hx(unhx(e['data_hex']))}"
+    exts = "none" if one["exts"] is None else (";".join(ext_tok(e) for e in one["exts"]) or "nil")
+    if dtls:
+        pieces = chunk(body, one.get("frags")) or [b""]
+        sizes = [len(x) for x in pieces]
+        rv = one.get("recvers") or [0xFF]
+        pres = [b"\x16\xfe" + u8(rv[min(i, len(rv) - 1)]) + u16(0) + struct.pack("!Q", i)[2:] for i in range(len(pieces))]
+    else:
+        pieces = chunk(b"\x01" + u24(len(body)) + body, one.get("chunks"))
+        sizes = [len(x) for x in pieces]
+        rv = one.get("recvers") or [1]
+        pres = [b"\x16\x03" + u8(rv[min(i, len(rv) - 1)]) for i in range(len(pieces))]
+    line = " ".join(["build", "1" if dtls else "0", hx(unhx(one["ver_hex"])), hx(unhx(one["random_hex"])), hx(unhx(one["sid_hex"])),
+                     hx(unhx(one.get("cookie_hex", "-"))), ",".join(map(str, one["ciphers"])) or "-", hx(unhx(one["comp_hex"])), exts, "0000",
+                     ",".join(hx(p) for p in pres) or "nil", ",".join(map(str, sizes)) or "-", hx(unhx(one.get("trail_hex", "-")))])
+    return line, hx(build_wire(one))
+
+
 def first_fragment_flight(wire: bytes) -> bytes:
     """a DTLS flight made of the first handshake fragment of `wire` only (header as sent), in one record"""
     r = Rd(wire); r.take(11); rec = Rd(r.vec(2))
@@ -538,8 +565,21 @@ class Check(PropertyCheck):
                   "(_partial) with a proved counterexample (finding F-C13a). Model tied to the code differentially on every "
                   "case: outcome class, PREDICTED sni (is_valid_host computed by the model), ALPN list, cipher list, extension "
                   "(type, bytes) list, for whole inputs, prefixes and segment-by-segment feeding; is_valid_host and "
-                  "starts_like_*_record also tied directly (ops vhost / starts).")
-    level_note = ("trusted: Lean kernel; model/implementation tie is differential (not a proof about Python). Inside "
+                  "starts_like_*_record also tied directly (ops vhost / starts). Owner round 6: the specification-side BUILDER (BHello.body/"
+                  "message, msgHdr, encExts/encNames/encProtos, mkRecord, records, fragsOf; dtlsFlight = records of fragsOf by "
+                  "dtlsFlight_eq_records) is executed by op `build` for every built case and compared byte for byte with the harness "
+                  "builder's wire (TLS chunkings, DTLS flights incl. fragmented ones, boundary-size hellos); `Hello.sni validHostFull` is "
+                  "computed by the driver itself (field n=) and that value is what is compared with ClientHello.sni; "
+                  "record_short_header_incomplete; validHostN_ascii / sni_is_ascii (whatever sni returns is ASCII for every nameprep: "
+                  "the accessor's final decode cannot raise).")
+    level_note = ("trusted: Lean kernel; model/implementation tie is differential (not a proof about Python). NOT EVIDENCE, only "
+                  "bookkeeping: parse_total holds for any Res-valued function (the clause 'never fails in another way' is carried by the "
+                  "totality ORACLE on the real code, incl. the accessors and is_valid_host, plus sni_is_ascii for the final decode); "
+                  "ciphers_of_built is rfl and extensions_of_built nearly so. SCOPE: builtSni (the reader sni_of_built compares with) "
+                  "follows mitmproxy's rule 'exactly one entry, type 0, valid host'; an RFC 6066 reader would report the first host_name "
+                  "of a multi-entry list — the property sentence is covered for single-entry lists only (the oracle is lenient there, "
+                  "see below). record_split_invariant for DTLS speaks about record bodies concatenated as a byte stream (the code's "
+                  "notion), not about DTLS fragmentation (F-C13a). Inside "
                   "is_valid_host three nested models are tied to the code: validHost (HostLib: idna(xn--) and ipaddress answers "
                   "supplied), validHostT (ipaddress = C22.parseIp in the model, decoded idna text supplied) and validHostN (idna "
                   "codec in the model: punycode decode/encode, ToASCII, ToUnicode, Codec.decode transcribed from CPython 3.12; "
@@ -1259,6 +1299,8 @@ class Check(PropertyCheck):
         lines += [f"parse {d} {hx(wires[0][:i])}" for i in self.tie_prefixes(case, wires[0])]
         for nm in self.ace_names(case):         # names that will need library answers, known from the spec: same batch
             lines += host_lines_with_lib(nm)
+        if case["kind"] == "built":             # the Lean builder's bytes for this very hello (compared with the harness builder's wire)
+            lines.append(build_line(case)[0])
         return lines
 
     @staticmethod
@@ -1300,6 +1342,9 @@ class Check(PropertyCheck):
             return {"table": replies[0][:1], "source": replies[0][1:]}
         if case["kind"] == "nprep": return {"prep": replies[0]}
         out = []
+        built = None
+        if case["kind"] == "built":
+            built = replies[-1]; replies = replies[:-1]
         names = self.ace_names(case)
         foreseen = {}
         if names:
@@ -1309,7 +1354,7 @@ class Check(PropertyCheck):
             f = rep.split(" ")
             if f[0] in ("incomplete", "invalid") and len(f) == 1:
                 out.append({"o": f[0]}); continue
-            if f[0] != "hello" or len(f) != 5:
+            if f[0] != "hello" or len(f) != 6:
                 out.append({"o": "model-said", "raw": rep[:100]}); continue
             kv = dict(x.split("=", 1) for x in f[1:])
             sni = None
@@ -1328,8 +1373,17 @@ class Check(PropertyCheck):
                         sni = cb.decode("ascii", "replace"); break
             except Exception as e:
                 sni = "lib-exc:" + type(e).__name__
+            # `Hello.sni validHostFull` as the DRIVER computed it (no library answer, no Python re-implementation): this is the
+            # prediction that is compared with the code; the candidate walk above stays as a consistency check of the nested models
+            n = kv["n"]
+            sni_model = None if n == "none" else unhx(n.split(":", 1)[1]).decode("ascii", "replace")
+            if sni != sni_model and not (isinstance(sni, str) and sni.startswith(("validHost says", "lib-exc:"))):
+                sni = f"Hello.sni validHostFull = {sni_model!r} but the candidate walk with library answers gives {sni!r}"
+            elif sni == sni_model:
+                sni = sni_model
             out.append({"o": "hello", "sni": sni, "alpn": self._lst(kv["a"]), "ciphers": [int(x) for x in self._lst(kv["c"])],
                         "exts": [[int(x.split(":")[0]), x.split(":")[1]] for x in self._lst(kv["e"])]})
+        if built is not None: out.append({"build": built})
         return out
 
     def impl_view(self, case, obs):
@@ -1338,7 +1392,9 @@ class Check(PropertyCheck):
         if case["kind"] == "starts":
             b = "1" if obs["starts"] is True else "0" if obs["starts"] is False else str(obs["starts"])
             return {"table": b, "source": b}
-        return obs["whole"] + [obs["inc"]] + obs["pre"]
+        view = obs["whole"] + [obs["inc"]] + obs["pre"]
+        if case["kind"] == "built": view = view + [{"build": build_line(case)[1]}]      # expected: the harness builder's wire
+        return view
 
     # ---------------------------------------------------------------------------------------------
     def classify(self, case, obs):
